@@ -403,10 +403,9 @@ class ManagerModel:
                 draws = []
                 choice = ev[2] if len(ev) > 2 else 1
 
-                def chooser(a, b, _c=choice, _d=draws, _seen=sorted(w.seen)):
-                    if _c == "seen":
+                def chooser(a, b, _c=choice, _d=draws, _seen=[c for c in sorted(w.seen) if 1 <= c <= 255]):
+                    if _c == "seen":      # first draw collides with a recently received id, later draws do not
                         v = _seen[0] if (_seen and not _d) else 200 + len(_d) % 50
-                        v = v if a <= v <= b else a    # a recently seen id 0 is outside randint(1, 255)
                     else:
                         v = _c
                     _d.append(v)
@@ -593,3 +592,609 @@ def _job_a(args):
     r = X.bfs(m, depth, prefix=prefix, xcheck_every=997)
     r.violations = []
     return r, dict(m.stats), m.viol.agg
+
+
+# ------------------------------------------------------------------------------------------------
+# World B: complete services in a closed loop
+# ------------------------------------------------------------------------------------------------
+T_GEN_TICKS = max(1, ticks(VC.T_GENVAMMIN / 1000.0))
+
+
+def decode_payload(data):
+    """Harness-side view of an emitted payload (real coder). Returns (vam | None, error | None)."""
+    try:
+        return V.coder().decode(data), None
+    except Exception as e:  # noqa: BLE001
+        return None, f"{type(e).__name__}:{str(e)[:100]}"
+
+
+def vam_summary(vam):
+    p = vam["vam"]["vamParameters"]
+    info = p.get("vruClusterInformationContainer")
+    vci = info["vruClusterInformation"] if info else None
+    return dict(sid=vam["header"]["stationId"],
+                info=None if vci is None else (vci.get("clusterId"), vci.get("clusterCardinalitySize")),
+                notif=op_parts(p.get("vruClusterOperationContainer")))
+
+
+def loop_script(names, variant):
+    """Scripted backbone of one closed-loop scenario; inside every ("par", ...) stage the explorer enumerates all
+    orders of the listed actions and of the resulting deliveries."""
+    lead, joiners = names[0], tuple(names[1:])
+    allgps = ("par", tuple(("gps", n) for n in names))
+    upd_j = ("par", tuple(("update", n) for n in joiners))
+    if variant == "lonely":
+        j = joiners[0]
+        return (allgps, ("do", ("tick", 10)), ("do", ("joinid", j, UNK)),
+                ("do", ("tick", 10)), allgps, ("do", ("tick", 20)), allgps, ("do", ("tick", 20)), allgps,
+                ("do", ("tick", 10)), ("do", ("update", j)), ("do", ("assert", "joinphase", j, "waiting")),
+                ("do", ("tick", 4)), allgps,
+                ("do", ("tick", 6)), ("do", ("update", j)), ("do", ("assert", "notif", j, "leave")),
+                ("do", ("tick", 10)), allgps,
+                ("do", ("tick", 10)), ("do", ("update", j)), ("do", ("assert", "notif", j, None)),
+                ("do", ("tick", 10)), allgps)
+    head = (("do", ("ghosts", lead)), allgps, ("do", ("tick", 10)), ("do", ("create", lead)), allgps,
+            ("do", ("assert", "knows_cluster", joiners)))
+    head += tuple(("do", ("join", j)) for j in joiners)
+    head += (("do", ("tick", 10)), allgps, ("do", ("tick", 50)), upd_j)
+    if variant == "late":      # the acknowledgement does not arrive within timeClusterJoinSuccess: a failed join is allowed
+        return head + (("do", ("tick", 10)), upd_j, ("do", ("assert", "notif", joiners, "leave")),
+                       ("do", ("tick", 4)), allgps, ("do", ("tick", 16)), upd_j, ("do", ("assert", "notif", joiners, None)),
+                       ("do", ("tick", 4)), allgps)
+    body = head + (("do", ("tick", 4)), allgps, ("do", ("assert", "passive", joiners)),
+                   ("do", ("tick", 10)), allgps, ("do", ("tick", 10)), upd_j, ("do", ("assert", "passive", joiners)))
+    if variant in ("breakup", "breakup_cpm"):
+        reason = BK_NORMAL if variant == "breakup" else CPM
+        return body + (("do", ("breakup", lead, reason)), ("do", ("tick", 10)), allgps, upd_j,
+                       ("do", ("assert", "standalone_tx", joiners, "breakup:" + reason)),
+                       ("do", ("tick", 4)), allgps, ("do", ("tick", 46)), ("do", ("update", lead)),
+                       ("do", ("assert", "state", lead, "VRU_ACTIVE_STANDALONE")), ("do", ("tick", 4)), allgps)
+    if variant == "lost":
+        return body + (("do", ("roleoff", lead)), ("do", ("tick", 20)), allgps, ("do", ("tick", 20)), upd_j,
+                       ("do", ("assert", "standalone_tx", joiners, "leader_silent")), ("do", ("tick", 4)), allgps,
+                       ("do", ("tick", 20)), upd_j, ("do", ("assert", "notif", joiners, None)))
+    if variant == "leave":
+        j = joiners[0]
+        return body + (("do", ("leave", j)), ("do", ("assert", "standalone_tx", (j,), "leave_command")),
+                       ("do", ("tick", 4)), allgps, ("do", ("tick", 16)), ("do", ("update", j)),
+                       ("do", ("assert", "notif", j, None)), ("do", ("tick", 4)), allgps)
+    raise ValueError(variant)
+
+
+class LoopModel:
+    """World B: controlled-schedule BFS over complete VRU services exchanging real VAMs."""
+
+    def __init__(self, names, variant, seed=0):
+        self.names = tuple(names)
+        self.variant = variant
+        self.script = loop_script(self.names, variant)
+        self.rng_seed = seed
+        self.stats = collections.Counter()
+        self.viol = Aggregator()
+
+    def share(self, w):
+        return w.shared()
+
+    def init(self):
+        w = V.LoopWorld(self.names)
+        w.pc = 0                 # index into the script
+        w.done = ()              # actions of the current ("par", ...) stage already executed
+        w.last_emit = {}         # station -> tick of its last emitted VAM
+        w.join = {}              # station -> ("notify"|"waiting", cluster id, since tick)
+        w.leader_of = {}         # passive station -> station (name) whose cluster VAM completed its join
+        w.advertised = None      # cluster id seen on the air by the harness
+        w.bad = []
+        return w
+
+    # -- enabled: deterministic step, or all orders inside a parallel stage ---------------------------
+    def enabled(self, w):
+        if w.pc >= len(self.script):
+            return [("deliver",) + l for l in w.pending()]
+        item = self.script[w.pc]
+        evs = [("deliver",) + l for l in w.pending()]
+        if item[0] == "par":
+            todo = [a for a in item[1] if a not in w.done]
+            evs = todo + evs
+            if not evs:
+                evs = [("next",)]
+        elif not evs:
+            evs = [item[1]]
+        r = random.Random(self.rng_seed)
+        r.shuffle(evs)
+        return evs
+
+    def canon(self, w):
+        st = []
+        for n in w.names:
+            svc = w.svc[n]
+            st.append((n, V.struct(svc.clustering_manager, w.now), V.struct(svc.vam_transmission_management, w.now)))
+        return (w.pc, tuple(sorted(w.done)), w.k, tuple(st), tuple((l, tuple(q)) for l, q in sorted(w.queues.items()) if q),
+                tuple(sorted(w.last_emit.items())), tuple(sorted(w.join.items())), tuple(sorted(w.leader_of.items())), w.advertised)
+
+    def outcome(self, w, obs):
+        return obs
+
+    # -- events --------------------------------------------------------------------------------
+    def apply(self, w, ev):
+        w.bad = []
+        kind = ev[0]
+        item = self.script[w.pc] if w.pc < len(self.script) else None
+        in_par = item is not None and item[0] == "par"
+        out = (kind,)
+        if kind == "next":
+            w.pc += 1
+            w.done = ()
+            return out
+        if kind == "deliver":
+            out = self._deliver(w, ev[1], ev[2])
+        elif kind == "gps":
+            out = self._gps(w, ev[1])
+        elif kind == "update":
+            self._update(w, ev[1])
+        elif kind == "tick":
+            w.step(ev[1])
+        elif kind == "ghosts":
+            for g in GHOSTS:
+                self._guard(w, ev, lambda g=g: w.inject(ev[1], V.encode(V.full_vam(g))))
+        elif kind == "create":
+            old = ENV.rand_int
+            ENV.rand_int = staticmethod(lambda a, b: ADV)
+            try:
+                lat, lon = V.pos_of(w.ids[ev[1]])
+                with w:
+                    ok = self._guard(w, ev, lambda: w.mgr(ev[1]).try_create_cluster(lat, lon))
+            finally:
+                ENV.rand_int = staticmethod(old)
+            if not ok or w.mgr(ev[1]).state is not VBSState.VRU_ACTIVE_CLUSTER_LEADER:
+                w.bad.append(dict(kind="loop_scenario_blocked", step="create", station=ev[1], _cut=True))
+        elif kind in ("join", "joinid"):
+            cid = ev[2] if kind == "joinid" else w.advertised
+            with w:
+                ok = self._guard(w, ev, lambda: w.mgr(ev[1]).initiate_join(cid))
+            if not ok or cid is None:
+                w.bad.append(dict(kind="loop_scenario_blocked", step="join", station=ev[1], advertised=cid, _cut=True))
+            else:
+                w.join[ev[1]] = ("notify", cid, w.k)
+        elif kind == "breakup":
+            with w:
+                ok = self._guard(w, ev, lambda: w.mgr(ev[1]).trigger_breakup_cluster(ClusterBreakupReason(ev[2])))
+            if not ok:
+                w.bad.append(dict(kind="loop_scenario_blocked", step="breakup", station=ev[1], _cut=True))
+        elif kind == "roleoff":
+            with w:
+                self._guard(w, ev, lambda: w.mgr(ev[1]).set_vru_role_off())
+            w.join.pop(ev[1], None)
+        elif kind == "leave":
+            with w:
+                self._guard(w, ev, lambda: w.mgr(ev[1]).trigger_leave_cluster(ClusterLeaveReason.SAFETY_CONDITION))
+            w.leader_of.pop(ev[1], None)
+        elif kind == "assert":
+            self._assert(w, ev)
+        else:
+            raise ValueError(ev)
+        if in_par and kind in ("gps", "update"):
+            w.done = w.done + (ev,)
+        elif kind != "deliver":
+            w.pc += 1
+            w.done = ()
+        return out
+
+    def _guard(self, w, ev, fn):
+        try:
+            return fn()
+        except Exception as e:  # noqa: BLE001
+            w.bad.append(dict(kind="exception", event=ev[0], station=ev[1] if len(ev) > 1 and isinstance(ev[1], str) else None,
+                              exc=f"{type(e).__name__}:{str(e)[:120]}", _cut=True))
+            return None
+
+    def _gps(self, w, n):
+        m = w.mgr(n)
+        pre = observe(w, m)
+        since = w.k - w.last_emit[n] if n in w.last_emit else None
+        err = None
+        try:
+            emitted = w.gps(n)
+        except Exception as e:  # noqa: BLE001
+            emitted = []
+            err = f"{type(e).__name__}:{str(e)[:110]}"
+        self.stats["gps"] += 1
+        base = dict(station=n, state=pre["state"], notif=",".join(sorted(pre["notif"])) or "none", has_info=pre["info"] is not None)
+        remaining_q = self._remaining_quarters(pre)
+        if remaining_q is not None:
+            base["time_field"] = remaining_q
+        if err is not None:
+            w.bad.append(dict(kind="emit_failed", err=err, **base, _cut=True))
+            return ("gps", pre["state"], "error")
+        if not pre["tx"]:
+            if emitted:
+                w.bad.append(dict(kind="emitted_while_suppressed", n=len(emitted), **base))
+            return ("gps", pre["state"], 0)
+        if since is None or since >= T_GEN_TICKS:
+            if len(emitted) != 1:
+                w.bad.append(dict(kind="emit_count", n=len(emitted), **base, _cut=True))
+        elif len(emitted) > 1:
+            w.bad.append(dict(kind="emit_count", n=len(emitted), **base, _cut=True))
+        for data in emitted:
+            w.last_emit[n] = w.k
+            self.stats["vams_emitted"] += 1
+            vam, derr = decode_payload(data)
+            if vam is None:
+                w.bad.append(dict(kind="emitted_undecodable", err=derr, **base, _cut=True))
+                continue
+            sm = vam_summary(vam)
+            want_info = None
+            if pre["info"] is not None:
+                vci = pre["info"]["vruClusterInformation"]
+                want_info = (vci.get("clusterId"), vci.get("clusterCardinalitySize"))
+                w.advertised = vci.get("clusterId")
+            if sm["sid"] != w.ids[n] or sm["info"] != want_info or sm["notif"] != pre["notif"]:
+                w.bad.append(dict(kind="emitted_containers_mismatch", got=repr((sm["info"], sm["notif"])),
+                                  want=repr((want_info, pre["notif"])), **base, _cut=True))
+        return ("gps", pre["state"], len(emitted), tuple(sorted(pre["notif"])), pre["info"] is not None)
+
+    @staticmethod
+    def _remaining_quarters(pre):
+        op = pre["op"] or {}
+        if "clusterJoinInfo" in op:
+            return op["clusterJoinInfo"].get("joinTime")
+        if "clusterBreakupInfo" in op:
+            return op["clusterBreakupInfo"].get("breakupTime")
+        return None
+
+    def _deliver(self, w, src, dst):
+        data = w.queues[(src, dst)][0]
+        vam, derr = decode_payload(data)
+        m = w.mgr(dst)
+        pre_state = m.state.name
+        jp = w.join.get(dst)
+        try:
+            w.deliver((src, dst))
+        except Exception as e:  # noqa: BLE001
+            w.bad.append(dict(kind="exception", event="deliver", station=dst, exc=f"{type(e).__name__}:{str(e)[:120]}", _cut=True))
+            return ("deliver", "error")
+        self.stats["delivered"] += 1
+        if vam is None:
+            return ("deliver", "undecodable")
+        sm = vam_summary(vam)
+        post_state = m.state.name
+        # the received VAM is reflected in the peer's manager ("drives the peer's state machine")
+        nv = internal(m, "_nearby_vrus").get(sm["sid"])
+        if pre_state != "VRU_IDLE" or True:
+            if nv is None or nv.last_seen != w.now:
+                w.bad.append(dict(kind="rx_not_reflected", what="nearby_vru", receiver=dst, has_info=sm["info"] is not None, _cut=True))
+        if sm["info"] is not None:
+            nc = internal(m, "_nearby_clusters").get(sm["info"][0])
+            if nc is None or nc.last_seen != w.now or nc.leader_station_id != sm["sid"]:
+                w.bad.append(dict(kind="rx_not_reflected", what="nearby_cluster", receiver=dst, has_info=True, _cut=True))
+            if jp is not None and jp[0] == "waiting" and jp[1] == sm["info"][0] and "breakup" not in sm["notif"]:
+                if post_state != "VRU_PASSIVE":
+                    w.bad.append(dict(kind="join_not_completed", form="loop", receiver=dst, target=jp[1], state=post_state, _cut=True))
+                w.join.pop(dst, None)
+        if post_state == "VRU_PASSIVE" and pre_state != "VRU_PASSIVE":
+            w.leader_of[dst] = src
+            w.join.pop(dst, None)
+        if post_state != "VRU_PASSIVE":
+            w.leader_of.pop(dst, None)
+        return ("deliver", pre_state, post_state, sm["info"] is not None, tuple(sorted(sm["notif"])))
+
+    def _update(self, w, n):
+        lat, lon = V.pos_of(w.ids[n])
+        with w:
+            self._guard(w, ("update", n), lambda: w.mgr(n).update(lat, lon, 1.0, 90.0))
+        jp = w.join.get(n)
+        if jp is not None:
+            if jp[0] == "notify" and w.k - jp[2] >= D_JOIN:
+                w.join[n] = ("waiting", jp[1], w.k)
+            elif jp[0] == "waiting" and w.k - jp[2] >= D_WAIT:
+                del w.join[n]
+        if w.mgr(n).state is not VBSState.VRU_PASSIVE:
+            w.leader_of.pop(n, None)
+
+    def _assert(self, w, ev):
+        what = ev[1]
+        who = ev[2] if isinstance(ev[2], tuple) else (ev[2],)
+        for n in who:
+            m = w.mgr(n)
+            ob = observe(w, m)
+            if what == "knows_cluster":
+                if w.advertised is None or w.advertised not in internal(m, "_nearby_clusters"):
+                    w.bad.append(dict(kind="loop_scenario_blocked", step="knows_cluster", station=n, advertised=w.advertised, _cut=True))
+            elif what == "passive":
+                if ob["state"] != "VRU_PASSIVE" or ob["tx"]:
+                    w.bad.append(dict(kind="loop_join_not_completed", station=n, state=ob["state"], _cut=True))
+            elif what == "state":
+                if ob["state"] != ev[3]:
+                    w.bad.append(dict(kind="loop_state", station=n, state=ob["state"], want=ev[3], _cut=True))
+            elif what == "joinphase":
+                jp = w.join.get(n)
+                if jp is None or jp[0] != ev[3]:
+                    raise HarnessError(f"scenario out of step: {n} join phase {jp} != {ev[3]}")
+            elif what == "notif":
+                got = ob["notif"]
+                if (ev[3] is None and got) or (ev[3] is not None and ev[3] not in got):
+                    w.bad.append(dict(kind="loop_notification", station=n, want=str(ev[3]), got=",".join(sorted(got)) or "none", _cut=True))
+            elif what == "standalone_tx":
+                if ob["state"] != "VRU_ACTIVE_STANDALONE" or not ob["tx"]:
+                    rec = dict(kind="loop_member_not_released", station=n, cause=ev[3], state=ob["state"], transmitting=ob["tx"], _cut=True)
+                    rec["still_silent_after_s"] = self._for_good(w, n)
+                    w.bad.append(rec)
+            else:
+                raise ValueError(ev)
+
+    def _for_good(self, w, n, rounds=12):
+        """Bounded demonstration of 'silenced for good' on a COPY: the ex-leader finishes its warning, returns to
+        stand-alone and keeps sending ordinary VAMs once per second; the member is updated every round."""
+        c = X.snapshot(self, w)
+        lead = self.names[0]
+        silent = 0
+        for _ in range(rounds):
+            c.step(20)
+            try:
+                lat, lon = V.pos_of(c.ids[lead])
+                with c:
+                    c.mgr(lead).update(lat, lon, 1.0, 90.0)
+                c.gps(lead)
+                while c.queues[(lead, n)]:
+                    c.deliver((lead, n))
+                lat, lon = V.pos_of(c.ids[n])
+                with c:
+                    c.mgr(n).update(lat, lon, 1.0, 90.0)
+                if c.gps(n) or c.mgr(n).should_transmit_vam():
+                    break
+            except Exception:  # noqa: BLE001
+                break
+            silent += 1
+        return silent
+
+    def check(self, w, ev, obs, hist):
+        if isinstance(obs, tuple) and obs and obs[0] == "EXC":
+            if obs[1] == "HarnessError":
+                raise HarnessError(obs[2])
+            return self.viol.take([dict(kind="exception", event=ev[0], exc=obs[1] + ":" + obs[2], _cut=True)], hist)
+        out = list(w.bad)
+        w.bad = []
+        for n in w.names:
+            for rec in invariants(w.mgr(n), observe(w, w.mgr(n))):
+                rec["station"] = n
+                out.append(rec)
+        return self.viol.take(out, hist)
+
+    def terminal(self, w, hist):
+        self.stats["complete_runs"] += 1
+        if w.pc < len(self.script):
+            return self.viol.take([dict(kind="loop_not_finished", pc=w.pc)], hist)
+        return []
+
+
+def _job_b(args):
+    names, variant, seed = args
+    m = LoopModel(names, variant, seed)
+    r = X.bfs(m, 100_000, xcheck_every=499)
+    r.violations = []
+    return (names, variant), r, dict(m.stats), m.viol.agg
+
+
+# ------------------------------------------------------------------------------------------------
+# World B, part 2: complete lattice of emission instants inside every notification window
+# ------------------------------------------------------------------------------------------------
+SWEEPS = {"join": D_JOIN + 10, "cancelled_join_leave": D_LEAVE + 10, "breakup": D_BREAK + 10}
+
+
+def sweep_case(what, offset):
+    """Fresh two-station loop; start the notification; let ``offset`` ticks pass; one location callback.
+    Returns (violation records, emitted?)."""
+    m = LoopModel(("A", "B"), "lonely")
+    w = m.init()
+    st = "A" if what == "breakup" else "B"
+    steps = [("ghosts", "A"), ("gps", "A"), ("gps", "B"), ("deliver", "A", "B"), ("deliver", "B", "A"), ("tick", 10)]
+    if what == "join":
+        steps += [("joinid", "B", UNK)]
+    elif what == "cancelled_join_leave":
+        steps += [("joinid", "B", UNK), ("tick", 10), ("cancel", "B")]
+    else:
+        steps += [("create", "A"), ("breakup", "A", ClusterBreakupReason.NOT_PROVIDED.value)]
+    steps += [("tick", offset), ("gps", st)]
+    bad = []
+    for ev in steps:
+        if ev[0] == "cancel":
+            with w:
+                w.mgr(ev[1]).cancel_join()
+            continue
+        w.pc = 0
+        m.apply(w, ev)
+        bad += w.bad
+    want = {"join": "join", "cancelled_join_leave": "leave", "breakup": "breakup"}[what]
+    ob = observe(w, w.mgr(st))
+    if want not in ob["notif"]:
+        bad.append(dict(kind="loop_notification", station=st, want=want, got=",".join(sorted(ob["notif"])) or "none"))
+    for r in bad:
+        r.pop("_cut", None)
+        r["window"] = what
+        r["offset_ticks"] = offset
+    return bad
+
+
+def _job_sweep(args):
+    what, lo, hi = args
+    out = []
+    n = 0
+    for off in range(lo, hi):
+        n += 1
+        for rec in sweep_case(what, off):
+            out.append((rec, [what, off]))
+    return n, out
+
+
+# ------------------------------------------------------------------------------------------------
+# driver
+# ------------------------------------------------------------------------------------------------
+def head_a(model, split_depth):
+    """Breadth-first over the first ``split_depth`` events (cuts honoured); returns the histories of the distinct
+    states at the split depth, which are the roots of the parallel explorations."""
+    r = X.bfs(model, split_depth, xcheck_every=0)
+    # second pass to collect one history per distinct frontier state (bfs does not expose its frontier)
+    seen = {X._h(model.canon(model.init()))}
+    frontier = collections.deque([(model.init(), ())])
+    roots = []
+    probe_model = ManagerModel(0, model.horizon, probes=False)
+    probe_model.alpha = model.alpha
+    while frontier:
+        w, hist = frontier.popleft()
+        if len(hist) == split_depth:
+            roots.append(hist)
+            continue
+        for ev in model.enabled(w):
+            nxt = X.snapshot(probe_model, w)
+            obs = probe_model.apply(nxt, ev)
+            if probe_model.check(nxt, ev, obs, hist + (ev,)):
+                continue            # cut
+            k = X._h(probe_model.canon(nxt))
+            if k in seen:
+                continue
+            seen.add(k)
+            frontier.append((nxt, hist + (ev,)))
+    return r, roots
+
+
+def _report(ctx, agg, part):
+    for s in sorted(agg):
+        n, rec, hist = agg[s]
+        rec = dict(rec)
+        rec["part"] = part
+        fid = ctx.classify(rec)
+        if fid is not None:
+            ctx.merge([], {fid: n}, {fid: rec})
+        else:
+            ctx.violation(rec, replay=dict(part=part, history=hist))
+            k = str(rec.get("kind"))
+            ctx.kind_counts[k] += n - 1
+            ctx.total_new += n - 1
+
+
+LOOP_VARIANTS = ("lonely", "late", "breakup", "breakup_cpm", "lost", "leave")
+
+
+def run(ctx):
+    thorough = ctx.tier == "thorough"
+    depth = 8 if thorough else 6
+    split = 2
+    horizon = depth * max(STEPS)
+    durs = V.lattice_selfcheck()
+    V.coder()                                   # compile once, inherited by the forked workers
+
+    # determinism self-check: one recorded execution replayed twice gives identical observations
+    probe_hist = [("join", "adv"), ("tick", 60), ("update",), ("rx", "info", "L", "dict"), ("tick", 40), ("update",)]
+    runs = []
+    for _ in range(2):
+        m0 = ManagerModel(ctx.seed, horizon, probes=False)
+        w0 = m0.init()
+        runs.append([m0.apply(w0, e) for e in probe_hist] + [m0.canon(w0)])
+    if runs[0] != runs[1]:
+        raise HarnessError("replaying one history twice gave different observations")
+
+    head_model = ManagerModel(ctx.seed, horizon)
+    head, roots = head_a(head_model, split)
+    tot = X.Result()
+    tot.merge(head)
+    stats = collections.Counter(head_model.stats)
+    agg_a = {}
+    Aggregator.merge(agg_a, head_model.viol.agg)
+    jobs_a = [(ctx.seed, r, depth, horizon) for r in roots]
+    jobs_b = [(names, v, ctx.seed) for names in (("A", "B"), ("A", "B", "C")) for v in LOOP_VARIANTS]
+    jobs_s = []
+    for what, hi in SWEEPS.items():
+        for lo in range(0, hi + 1, 8):
+            jobs_s.append((what, lo, min(hi + 1, lo + 8)))
+    digests = []
+    samples = []
+    b_states = b_trans = b_x = 0
+    b_complete = True
+    stats_b = collections.Counter()
+    sweep_n = 0
+    outcomes_b = set()
+    with mp.Pool(16) as pool:
+        res_a = pool.imap_unordered(_job_a, jobs_a)
+        res_b = pool.imap_unordered(_job_b, jobs_b)
+        res_s = pool.imap_unordered(_job_sweep, jobs_s)
+        for r, st, agg in res_a:
+            tot.merge(r)
+            stats.update(st)
+            Aggregator.merge(agg_a, agg)
+        _report(ctx, agg_a, "A")
+        for (names, variant), r, st, agg in res_b:
+            label = "B:%s:%s" % ("".join(names), variant)
+            b_states += r.states
+            b_trans += r.transitions
+            b_x += r.xchecks
+            outcomes_b |= r.outcomes
+            stats_b.update(st)
+            b_complete = b_complete and r.complete
+            digests.append((label, r.digest()))
+            samples.extend(r.samples[:1] if variant == "breakup" else [])
+            ctx.parts[label] = dict(states=r.states, transitions=r.transitions, max_depth=r.max_depth, graph_closed=r.complete,
+                                    pruned=r.pruned, complete_runs=st.get("complete_runs", 0), vams_emitted=st.get("vams_emitted", 0),
+                                    delivered=st.get("delivered", 0), xchecks=r.xchecks)
+            _report(ctx, agg, label)
+        for n, out in res_s:
+            sweep_n += n
+            for rec, where in out:
+                rec["part"] = "B:sweep"
+                ctx.violation(rec, replay=dict(part="B:sweep", sweep=where))
+    digests.insert(0, ("A", tot.digest()))
+    ctx.parts["A"] = dict(states=tot.states, transitions=tot.transitions, max_depth=tot.max_depth, depth_bound=depth,
+                          split_depth=split, roots=len(roots), pruned=tot.pruned, xchecks=tot.xchecks,
+                          probes=stats.get("probes", 0), outcomes=len(tot.outcomes), alphabet=len(head_model.alpha),
+                          states_per_depth={str(k): v for k, v in sorted(tot.depth_hist.items())})
+    ctx.parts["B:sweep"] = dict(evaluations=sweep_n, windows={k: v + 1 for k, v in SWEEPS.items()})
+    ctx.coverage.update(
+        states=tot.states + b_states, transitions=tot.transitions + b_trans + sweep_n,
+        traces_validated_against_impl=tot.transitions + b_trans + sweep_n,
+        replay_crosschecks=tot.xchecks + b_x, probes_executed=stats.get("probes", 0),
+        pruned=tot.pruned + sum(p.get("pruned", 0) for k, p in ctx.parts.items() if k.startswith("B:") and "pruned" in p),
+        distinct_outcomes=len(tot.outcomes) + len(outcomes_b), exhaustive=bool(b_complete),
+        caps=[("A", f"depth {depth}")], state_digests=digests,
+        vams_emitted=stats_b.get("vams_emitted", 0), vams_delivered=stats_b.get("delivered", 0),
+        complete_runs=stats_b.get("complete_runs", 0), emission_instants=sweep_n,
+        samples=(tot.samples[:2] + samples[:1]) or [[list(e) for e in probe_hist]],
+        explanation=("A: every transition is one call into the real VBSClusteringManager (command, update, on_received_vam "
+                     "with a hand-built dict or with the output of the real VAM coder, or a clock step); all histories over "
+                     f"the {len(head_model.alpha)}-event alphabet up to depth {depth} from the initial state, states merged by "
+                     "a canonical projection (ages on the 50 ms lattice); probes are executed on copies of every distinct "
+                     "passive state. B: every order of location callbacks and deliveries inside each stage of the scripted "
+                     "scenarios over complete VRUAwarenessService objects; graphs closed (run to the end of the script)."),
+    )
+    ctx.assumptions += [
+        "durations are the values of vam_constants.py (Table 15 of TS 103 300-3 as cited there); the standard was not available offline: %s" % durs,
+        "VBSClusteringManager.update() is driven by the harness (the service never calls it; the statement speaks of 'the next update')",
+        "canonical projection of World A (mc/checks/c18.py:mgr_key/reduce_key) with the equal-futures argument given there",
+        "World B explores scripted scenarios (all orders inside each stage), not free command sequences",
+        "senders stand within MAX_CLUSTER_DISTANCE; positions and kinematics are constants",
+    ]
+
+
+# ------------------------------------------------------------------------------------------------
+# replay (no explorer)
+# ------------------------------------------------------------------------------------------------
+def replay(path):
+    rec = json.load(open(path))
+    print(json.dumps(rec["violation"], indent=1))
+    rp = rec["replay"]
+    part = rp.get("part", "A")
+    if part == "B:sweep":
+        bad = sweep_case(*rp["sweep"])
+        print(rp["sweep"], "->", bad or "ok")
+        return 1 if bad else 0
+    hist = [tuple(tuple(x) if isinstance(x, list) else x for x in e) for e in rp.get("history", [])]
+    if part == "A":
+        m = ManagerModel(0, 10**9)
+    else:
+        _, names, variant = part.split(":")
+        m = LoopModel(tuple(names), variant)
+    w = m.init()
+    for i, ev in enumerate(hist):
+        before = {s: a[0] for s, a in m.viol.agg.items()}
+        obs = m.apply(w, ev)
+        m.check(w, ev, obs, hist[:i + 1])
+        new = [a[1] for s, a in m.viol.agg.items() if a[0] != before.get(s, 0)]
+        print(i, ev, "->", obs, new or "ok")
+    return 1 if m.viol.agg else 0
